@@ -704,6 +704,15 @@ class Interp:
             lt = (e.get("l") or {}).get("ty") if isinstance(e.get("l"), dict) else None
             if lt == "bool" and op in ("BitAnd", "BitOr"):
                 return (and_ if op == "BitAnd" else or_)(l, r)
+            if op == "BitAnd" and lt in ("u8", "u16", "u32", "u64"):
+                # a mask of the top bits of the type keeps exactly what `(x >> k) << k` keeps: one canonical form for "the high bits of x"
+                w_ = int(lt[1:])
+                for x_, m_ in ((l, r), (r, l)):
+                    if Tm.is_lit(m_) and isinstance(m_.args[0], int) and not isinstance(m_.args[0], bool) and 0 < m_.args[0] < (1 << w_):
+                        mv = m_.args[0]
+                        k_ = (mv & -mv).bit_length() - 1
+                        if k_ > 0 and mv == ((1 << w_) - 1) ^ ((1 << k_) - 1):
+                            return Tm.intop("shl", Tm.intop("shr", x_, lit(k_)), lit(k_))
             return Tm.intop(self.BINOPS[op], l, r)
         return mk("binop", op, l, r)
 
